@@ -240,3 +240,58 @@ def check_C09(tier):
     res.distinct = len(kinds)
     res.extra["shapes"] = ns
     return res.finish()
+
+
+def sym_descriptor(rec, clause):
+    return {"family": "sym", "clause": clause, "kind": rec.get("kind"), "case": rec.get("case"),
+            "occupancy": rec.get("occupancy"), "pad_tie": rec.get("pad_tie"), "verdict": rec.get("verdict")}
+
+
+def check_C13(tier):
+    res = Result("C13", tier, "model_checking")
+    res.rule = ("E1 (Ring.tla, N=12 and 16 wires, K=4, Reach=2, Shift=4): for every occupancy the code-shaped block "
+                "finder (linear scan + seam merge) partitions the occupied wires into the maximal ring runs, blocks and "
+                "banded coupling are equivariant under rotation by one pad column (the full ring excepted: finding F4 is "
+                "asserted as such), columns partition the ring and rotate with it. E2/E3 (hook-free, through "
+                "try_from_banks under the simulation run): simulated tracks, random hit patterns, blocks of 9..255 wires at "
+                "positions incl. the 255/0 seam with differing waveform lengths, and the full ring; each base event is "
+                "rebuilt for rotations by k pad columns (quick: k in {1,7,16,31}, one event all 31; thorough: all 31) "
+                "and for the pad-row mirror. Trace_Symmetry requires the rotated avalanche multiset = base with wire + 8k "
+                "and all other fields (time bin, z, both amplitudes) bit-identical, and the mirrored one = same "
+                "wire/time/amplitudes with z negated within 1e-9 m. distinct_nontrivial = (base event, placement) pairs "
+                "with >= 1 avalanche")
+    res.assumptions = ["Ring.tla is the design argument for block placement; the implementation is bound by sampled events x placements",
+                       "the forward synthesiser only produces inputs", "uniform simulation calibration makes rotated banks carry rotated signals exactly"]
+    for n in ((12,) if tier == "quick" else (12, 16)):
+        cfg = write_cfg("MC_Ring_%d" % n, constants={"N": n, "K": 4, "Reach": 2, "Shift": 4},
+                        invariants=["Partition", "BlocksEq", "CouplingEq", "FullRingSeamUncoupled", "Columns"])
+        res.add_mc(tlc_model_check("MC_Ring", cfg, "mc_ring_%d" % n, expect_actions=["Pick"], workers=8, timeout=3000))
+    trace = os.path.join(BUILD, "traces", "C13_trace.ndjson")
+    res.evaluations += run_vh(["sym", "--data", os.path.join(REPO, "physics", "data"), "--seed", str(seed()), "--tier", tier],
+                              trace, timeout=7200)
+    for k, part in enumerate(split_file(trace, 40)):
+        validate_dec_trace(res, part, "C13_%d" % k, module="Trace_Symmetry", descriptor=sym_descriptor)
+    placements = 0
+    with open(trace) as f:
+        for line in f:
+            rec = json.loads(line)
+            if len(rec.get("base", [])) >= 1:
+                placements += len(rec.get("rot", [])) + 1
+            if len(res.samples) < 2 and 1 <= len(rec.get("base", [])) <= 4:
+                res.add_sample(slim(rec, 6), 2)
+    res.distinct = placements
+    res.extra["base_events"] = count_lines(trace)
+    if tier == "thorough":
+        for line in open(trace):
+            rec = json.loads(line)
+            if len(rec.get("base", [])) >= 1 and rec.get("pad_tie") == 0 and rec.get("occupancy") != "full":
+                break
+        rec["rot"][0][1][0][0] = (rec["rot"][0][1][0][0] + 1) % 256
+        p2 = trace + ".selftest"
+        open(p2, "w").write(json.dumps(rec) + "\n")
+        _, mism, _ = tlc_validate("Trace_Symmetry", p2, "C13_self")
+        okk = any(m[0] == rec["i"] for m in mism)
+        res.extra["binding_selftest"] = {"corrupted_record": rec["i"], "rejected": okk, "how": "moved one rotated avalanche by one wire"}
+        if not okk:
+            raise ToolError("binding self-test failed")
+    return res.finish()
